@@ -253,13 +253,18 @@ def units(tier, seed):
         for t in names:
             add('a.T=%s.nb3.deep' % t, t, 3, False, {'w0': 0}, 1500, 'C15.a', deep=True)
         for t in names:
-            for w0 in range(NV):
-                for k0 in range(len(BIND[0])):
-                    add('a.T=%s.nb3.w0=%d.k0=%d' % (t, w0, k0), t, 3, False, {'w0': w0, 'k0': k0}, 1500, 'C15.a')
+            if t in ('v0', 'g(v0,v1)', 'g(v1,f(v0))'):
+                for w0 in range(NV):
+                    for k0 in range(len(BIND[0])):
+                        add('a.T=%s.nb3.w0=%d.k0=%d' % (t, w0, k0), t, 3, False, {'w0': w0, 'k0': k0, 'nb': 3}, 900, 'C15.a')
+            else:
+                add('a.T=%s.nb2' % t, t, 2, False, {}, 900, 'C15.a')
             add('b.findall.T=%s.nb2' % t, t, 2, True, {}, 900, 'C15.b')
-        for t in ('f(v0)', 'g(v0,v1)'):
-            for w0 in range(NV):
-                add('b.findall.T=%s.nb3.w0=%d' % (t, w0), t, 3, True, {'w0': w0}, 1500, 'C15.b')
+        for w0 in range(NV):
+            for k0 in range(len(BIND[0])):
+                add('b.findall.T=f(v0).nb3.w0=%d.k0=%d' % (w0, k0), 'f(v0)', 3, True, {'w0': w0, 'k0': k0, 'nb': 3}, 900, 'C15.b')
+        for t in LIST_TEMPLATES:
+            add('a.T=%s.nb3.lists' % t, t, 3, False, {'w0': 0, 'nb': 3}, 900, 'C15.a')
     return us
 
 
